@@ -669,22 +669,46 @@ class FxNode:
 
     @property
     def all_input_nodes(self):
-        return [a for a in self.args if isinstance(a, FxNode)]
+        out = []
+
+        def rec(a):
+            if isinstance(a, FxNode):
+                if a not in out:
+                    out.append(a)
+            elif isinstance(a, (list, tuple)):
+                for x in a:
+                    rec(x)
+            elif isinstance(a, dict):
+                for x in a.values():
+                    rec(x)
+        rec(self.args)
+        rec(self.kwargs)
+        return out
 
     @property
     def users(self):
         return {n: None for n in self.graph.nodes if self in n.all_input_nodes}
 
+    @staticmethod
+    def _subst(a, old, new):
+        if a is old:
+            return new
+        if isinstance(a, tuple):
+            return tuple(FxNode._subst(x, old, new) for x in a)
+        if isinstance(a, list):
+            return [FxNode._subst(x, old, new) for x in a]
+        return a
+
     def replace_all_uses_with(self, other):
         changed = []
         for n in self.graph.nodes:
             if self in n.all_input_nodes:
-                n.args = tuple(other if a is self else a for a in n.args)
+                n.args = FxNode._subst(n.args, self, other)
                 changed.append(n)
         return changed
 
     def replace_input_with(self, old, new):
-        self.args = tuple(new if a is old else a for a in self.args)
+        self.args = FxNode._subst(self.args, old, new)
 
     def __repr__(self):
         return f'<fxnode {self.op} {self.target}>'
@@ -692,8 +716,12 @@ class FxNode:
 
 class FxGraph:
     def __init__(self):
-        self.nodes = []
+        self._nodes = []
         self._insert = None
+
+    @property
+    def nodes(self):
+        return list(self._nodes)          # iteration is safe while nodes are erased (torch.fx uses a linked list)
 
     class _Ins:
         def __init__(self, g, n, before):
@@ -716,11 +744,11 @@ class FxGraph:
 
     def _add(self, node):
         if self._insert is None:
-            self.nodes.append(node)
+            self._nodes.append(node)
         else:
             n, before = self._insert
-            i = self.nodes.index(n)
-            self.nodes.insert(i if before else i + 1, node)
+            i = self._nodes.index(n)
+            self._nodes.insert(i if before else i + 1, node)
         return node
 
     def call_module(self, target, args=(), kwargs=None):
@@ -733,13 +761,22 @@ class FxGraph:
         return self._add(FxNode(self, 'output', 'output', (arg,)))
 
     def erase_node(self, n):
-        self.nodes.remove(n)
+        if len(n.users) > 0:
+            raise RuntimeError(f'Tried to erase Node {n.name} but it still had {len(n.users)} users in the graph')
+        self._nodes.remove(n)
 
     def lint(self):
         pass
 
     def eliminate_dead_code(self):
-        pass
+        changed = False
+        for n in reversed(self.nodes):
+            if n.op in ('placeholder', 'output'):
+                continue
+            if len(n.users) == 0:
+                self._nodes.remove(n)
+                changed = True
+        return changed
 
 
 class FxGraphModule:
@@ -760,6 +797,17 @@ class FxGraphModule:
     def delete_submodule(self, name):
         self.mods.pop(name, None)
 
+    def delete_all_unused_submodules(self):
+        used = set()
+        for n in self.graph.nodes:
+            if n.op == 'call_module':
+                parts = str(n.target).split('.')
+                for i in range(1, len(parts) + 1):
+                    used.add('.'.join(parts[:i]))
+        for name in list(self.mods):
+            if name not in used:
+                del self.mods[name]
+
     def recompile(self):
         pass
 
@@ -771,7 +819,13 @@ class FxGraphModule:
             if n.op == 'placeholder':
                 vals[n] = x
             elif n.op == 'call_module':
-                args = [vals[a] if isinstance(a, FxNode) else a for a in n.args]
+                def val(a):
+                    if isinstance(a, FxNode):
+                        return vals[a]
+                    if isinstance(a, (list, tuple)):
+                        return type(a)(val(x) for x in a)
+                    return a
+                args = [val(a) for a in n.args]
                 vals[n] = interp.call(self.mods[str(n.target)], args, {})
                 out = vals[n]
             elif n.op == 'output':
